@@ -429,6 +429,13 @@ def _len_model(an, f, st, t, c, argiv):
                 if kk[0] == key[0] and kk[1][: len(pre)] == pre:
                     r[(dst_v, "0") + kk[1][len(pre):]] = vv
         return r, None, []
+    if name in ("core::option::Option::is_some", "core::option::Option::is_none", "core::result::Result::is_ok", "core::result::Result::is_err") and args:
+        okv = an.sub_of_operand(st, args[0], ("#ok",))
+        if okv is None:
+            return {(): (0, 1)}, None, []
+        if last in ("is_none", "is_err"):
+            okv = (1 - okv[1], 1 - okv[0])
+        return {(): okv}, None, []
     if name in ("core::option::Option::map_or", "core::result::Result::map_or") and len(args) == 3:
         okv = an.sub_of_operand(st, args[0], ("#ok",)) or (0, 1)
         variant = "@Some" if "Option" in name else "@Ok"
